@@ -1,6 +1,7 @@
 SPECIFICATION Spec
 CONSTANTS
-  Strings <- StringsFew
+  Strings <- StringsAll
+  OpsFrom <- StringsFew
   Others <- OthersFew
   MaxOps = 2
   ExportHist = TRUE
